@@ -24,6 +24,59 @@ sym_mods = common.sym_mods
 real_mods = common.real_mods
 
 
+def h_sdmx_alpha0(env, natm=3):
+    """EXXSphGenerator.from_settings_and_mol (ciderpress/pyscf/sdmx.py) derives the default smallest SDMX exponent from the molecular
+    extent; it must not depend on the order in which the atoms are listed (nor on a rigid shift).  Symbolic run: a stand-in molecule
+    with symbolic atom coordinates, plan classes replaced by recorders of (alpha0, lambd, nalpha); concrete replay: real Mole objects
+    and the real plan."""
+    import itertools
+    import types
+    sd, st = env.m.sdmx, env.m.settings
+    # a one-parameter family of bent three-atom geometries (0,0,0), (1,0,0), (0,0,z), z in [1/2, 3]: enough for "which atom is listed
+    # first" to matter, few enough distance comparisons for the path explorer
+    z = env.par("z", "pos", lo="1/2", hi="3")
+    R = env.zeros((natm, 3))
+    R[1, 0] = env.const(1)
+    R[2, 2] = z
+    env.eps_zero()
+    settings = st.SDMXSettings([1])
+    from . import c02
+    real_mol = c02._sdmx_mol()
+
+    def alpha0_for(coords):
+        if env.sym:
+            # two primitive exponents 1/2 and 2 (exact binary values: the width 1/sqrt(2 min_exp) = 1 stays a small rational)
+            bas = np.zeros((2, 8), dtype=np.int32)
+            bas[:, 5] = [1, 2]
+            mol = types.SimpleNamespace(_env=np.array([0.0, 0.5, 2.0]), _bas=bas, atom_coords=lambda unit="Bohr": coords)
+            rec = {}
+
+            class Rec(object):
+                def __init__(self, settings_, nspin, alpha0, lambd, nalpha, **kw):
+                    rec.update(alpha0=alpha0, lambd=lambd, nalpha=nalpha)
+                    self.fit_metric = "ovlp"
+            old = sd.SDMXPlan
+            sd.SDMXPlan = Rec
+            try:
+                sd.EXXSphGenerator.from_settings_and_mol(settings, 1, mol, nalpha=8)
+            finally:
+                sd.SDMXPlan = old
+            return rec["alpha0"]
+        from pyscf import gto
+        mol = gto.M(atom=[("H", tuple(float(x) for x in c)) for c in np.asarray(coords, dtype=float)], basis="sto-3g", unit="Bohr", spin=natm % 2, verbose=0)
+        return sd.EXXSphGenerator.from_settings_and_mol(settings, 1, mol, nalpha=8).plan.alpha0
+    ok, a_ref = env.attempt("returns", lambda: alpha0_for(R.copy()))
+    if not ok:
+        return
+    for perm in itertools.permutations(range(natm)):
+        if perm == tuple(range(natm)):
+            continue
+        Rp = R.copy()
+        for k, src in enumerate(perm):
+            Rp[k] = R[src]
+        env.equal("alpha0_same_for_atom_order_%s" % "".join(map(str, perm)), alpha0_for(Rp), a_ref)
+
+
 def c_generator_cache(cfg):
     """NLDFNumInt / NLDFNLOFNumInt.initialize_feature_generators (ciderpress/pyscf/numint.py) reuses its feature generators between
     calls; after a call with a rigidly moved or relabelled copy of the previous molecule (same grids object, as after
@@ -366,6 +419,7 @@ def tasks(tier):
     for atoms, perm, shells in relab:
         out.append(Task("relabel_indexer/%s/%s" % ("".join(atoms), "".join(map(str, perm))), h_relabel_indexer, dict(atoms=atoms, perm=perm, shells=shells), mods="grids"))
     out.append(Task("generator_cache", c_generator_cache, dict(task="generator_cache"), engine="custom"))
+    out.append(Task("sdmx_default_exponent/3atoms", h_sdmx_alpha0, {}, mods="numint", max_paths=512, timeout_ms=60000))
     if tier == "thorough":
         out.append(Task("shell_norm/lmax3", h_shell_norm, dict(lmax=3)))
         out.append(Task("deriv/lmax3", h_deriv, dict(lmax=3)))
@@ -387,7 +441,7 @@ def extra_evidence(results):
 META = dict(
     explanation="clang LLVM IR of sph_harm.c executed on a symbolic unit vector; z3 decides polynomial identities on the sphere (exact where both sides use "
                 "the same constants, within 1e-12 where the C source's decimal constants meet pi); plan-level l=1 contraction under a symbolic orthogonal matrix",
-    functions=['ciderpress/pyscf/numint.py: CiderNumIntMixin / NLDFNumInt / NLDFNLOFNumInt.initialize_feature_generators (generator_cache: concrete fact task, no solver query)', "ciderpress/lib/mod_cider/sph_harm.c: setup_sph_harm_buffer, recursive_sph_harm, recursive_sph_harm_deriv, remove_radial_grad, recursive_sph_harm(_deriv)_vec",
+    functions=['ciderpress/pyscf/sdmx.py: EXXSphGenerator.from_settings_and_mol (sdmx_default_exponent/*)', 'ciderpress/pyscf/numint.py: CiderNumIntMixin / NLDFNumInt / NLDFNLOFNumInt.initialize_feature_generators (generator_cache: concrete fact task, no solver query)', "ciderpress/lib/mod_cider/sph_harm.c: setup_sph_harm_buffer, recursive_sph_harm, recursive_sph_harm_deriv, remove_radial_grad, recursive_sph_harm(_deriv)_vec",
                "ciderpress/dft/plans.py: NLDFAuxiliaryPlan.eval_rho_full/eval_rho_vi_", "ciderpress/dft/grids_indexer.py: AtomicGridsIndexer.from_tabs/__init__"],
     bounds=dict(lmax="2 (3 thorough)", points=1, octahedral_operations="8 of 48 (quick), all 48 (thorough)", tolerance="1e-12 for identities involving pi vs the source's double constants"),
     stubs=["complex arithmetic: clang's expanded real/imag form; creal/cimag/__muldc3 by definition; calloc'd buffers zero-initialised"],
